@@ -130,7 +130,7 @@ def rand_custom_param(r, gid, name, maxdesc=255, state=None):
 LAYOUT_KNOBS = ["zeros", "param_block", "zero_prologue", "order", "last", "sparse_ids", "labels_vs_points", "empty_analog", "first_frame", "events", "trailing_fill", "extra_blocks", "key_words"]
 
 
-def gen_case(seed, idx, big=False, force=None, ntsc_ok=True):
+def gen_case(seed, idx, big=False, force=None, ntsc_ok=True, data_block_min=None):
     """Return (content, layout, meta)."""
     r = random.Random((seed * 1000003 + idx) & 0xFFFFFFFF)
     meta = {"idx": idx, "variants": []}
@@ -169,6 +169,12 @@ def gen_case(seed, idx, big=False, force=None, ntsc_ok=True):
         L["trailing_fill"] = 1
     if "extra_blocks" in chosen:
         L["extra_param_blocks"] = r.choice([1, 2, 5])        # the block count is larger than the records need: zero blocks before the data
+        if r.random() < 0.12:
+            L["data_block_min"] = r.choice([255, 256, 257])   # (with the parameter section at block 2..6) the data pointer reaches 256: both of its bytes matter
+            meta["variants"].append("data_start_beyond_255")
+    if data_block_min:
+        L["data_block_min"] = data_block_min
+        meta["variants"].append("data_start_beyond_255")
     if "key_words" in chosen:
         L["klp"], L["fbk"], L["fcp"] = r.choice([0, 12345]), r.choice([0, 3, 200]), r.choice([12345, 0])
     empty_analog = "empty_analog" in chosen
